@@ -623,9 +623,13 @@ class ArcBasedRoutingProblem(RoutingProblem):
         # so sort the arcs so that those leaving the depot are first
         # Flip the tuples because np.lexsort sorts on last row, second to last row, ...
         soln_var_tuples = [self.get_var_tuple_index(k) for k in soln_var_indices]
-        tuples_to_sort = np.flip(np.array(soln_var_tuples), -1)
-        arg_sorted = np.lexsort(tuples_to_sort.T)
-        tuples_ordered = [soln_var_tuples[i] for i in arg_sorted]
+        if len(soln_var_tuples) > 0:
+            tuples_to_sort = np.flip(np.array(soln_var_tuples), -1)
+            arg_sorted = np.lexsort(tuples_to_sort.T)
+            tuples_ordered = [soln_var_tuples[i] for i in arg_sorted]
+        else:
+            # nothing selected: no route (np.lexsort rejects an empty key list)
+            tuples_ordered = []
         # While building route, do some dummy checks to make sure formulation is right;
         # check that each node is visited exactly once
         visited = np.zeros(len(self.nodes))
